@@ -57,7 +57,15 @@ def correspond_runs(ctx, cases, label):
         ctx.notes.append("model not runnable: %r" % (e,))
         mout = ["ERR model-unavailable"] * len(cmds)
     import hashlib
+    cap = 12 if ctx.quick() else 60
     for c, obs, cmd, mo in zip(cases, obs_list, cmds, mout):
+        # sample for the in-Coq re-evaluation (extraction cross-check); short commands only
+        pool = ctx.vm_pool.setdefault(cmd.split(" ", 1)[0], [])
+        if len(cmd) < 3000:
+            if len(pool) < cap:
+                pool.append((cmd, mo))
+            elif ctx.rng.random() < 0.02:
+                pool[ctx.rng.randrange(cap)] = (cmd, mo)
         io_ = rl.canon_run(obs)
         a, b = mo, io_
         if c.get("events") is not None:
